@@ -1,6 +1,7 @@
 package harness
 
 import (
+	"github.com/quickfixgo/quickfix/verifsim/simsync"
 	"fmt"
 	"sort"
 	"time"
@@ -147,6 +148,19 @@ func runC08(env *Env, tier string) {
 	c.ResetOnLogon = ch.Chance("ResetOnLogon", 1, 6)
 	c.ResetOnLogout = ch.Chance("ResetOnLogout", 1, 6)
 	c.ResetOnDisconnect = ch.Chance("ResetOnDisconnect", 1, 6)
+	// a third of the runs: the simulator decides which READY source the session loop serves (select gate, one
+	// polling order for the run). R1 is then not needed for that select: a callback may take longer than the
+	// timers' periods, frames may wait while timers fire, the application may send while a frame waits.
+	c08Crowded = false
+	if ch.Chance("crowdedselect", 1, 3) {
+		orders := [][]int{{3, 2, 1, 0, 4}, {2, 3, 1, 0, 4}, {1, 3, 2, 0, 4}, {0, 2, 3, 1, 4}, {4, 1, 2, 3, 0}, {3, 1, 0, 2, 4}}
+		o := orders[ch.Choose("selectorder", len(orders))]
+		simsync.SetSelectOrder(o)
+		env.OnCleanup(func() { simsync.SetSelectOrder(nil); c08Crowded = false })
+		c08Crowded = true
+		env.Cfg["selectorder"] = fmt.Sprint(o)
+		env.Stat("probe_select_order_decided_by_simulator")
+	}
 	s := StartSut(env, c)
 	a := NewAdv(s, hb, AdvOpts{AllowCuts: true, AllowSends: true, AllowStop: true,
 		Weights: []int{8, 3, 2, 2, 2, 2, 2, 2, 2, 3, 2, 2, 6, 3, 8, 1}})
@@ -158,7 +172,7 @@ func runC08(env *Env, tier string) {
 		s.E.App.OnCall = func(c AppCall) {
 			// (not while a second frame is waiting behind the one being handled: the wake-up for the queued
 			// message and the waiting frame would be two ready sources for the session's select - R1)
-			if (c.Kind == "FromAdmin" || c.Kind == "FromApp") && !c08PairInFlight && (c.Seq+len(c.Type)+len(c.ID))%k == 0 {
+			if (c.Kind == "FromAdmin" || c.Kind == "FromApp") && (!c08PairInFlight || c08Crowded) && (c.Seq+len(c.Type)+len(c.ID))%k == 0 {
 				cbN++
 				env.Stat("probe_send_from_callback")
 				s.E.Send("D", AppBody(fmt.Sprintf("cb%d", cbN)))
@@ -224,11 +238,22 @@ func runC08(env *Env, tier string) {
 // c08PairInFlight is set while c08PipelinedPair has two frames under way (one worker runs one run at a time).
 var c08PairInFlight bool
 
+// c08Crowded: this run has a select order set (several ready sources are allowed).
+var c08Crowded bool
+
 func c08PipelinedPair(env *Env, s *Sut, a *Adv) {
 	ch, p := env.Ch, s.P
 	// keep every engine timer out of the window in which the second message is waiting (two ready sources
 	// for the session's select would be decided by Go, not by the simulator: R1)
-	env.QuietWindow(30 * time.Millisecond)
+	slow := 5 * time.Millisecond
+	if c08Crowded {
+		// no quiet window: timers may fall due while the frames wait, and the callback may outlast them
+		hbd := time.Duration(s.E.Cfg.HeartBtInt) * time.Second
+		slow = []time.Duration{5 * time.Millisecond, 700 * time.Millisecond, hbd * 13 / 10, hbd * 26 / 10}[ch.Choose("pairslow", 4)]
+		env.Stat("probe_pipelined_pair_with_timers_falling_due")
+	} else {
+		env.QuietWindow(30 * time.Millisecond)
+	}
 	p.Collect()
 	if !p.Connected() || !s.E.App.LoggedOn() {
 		return
@@ -258,7 +283,7 @@ func c08PipelinedPair(env *Env, s *Sut, a *Adv) {
 	}
 	y, _ := p.Build("D", AppBody(p.NextID()), MsgOpt{})
 	env.Stat("probe_pipelined_pair_" + []string{"logout", "staletime", "compid", "toolow", "app", "testrequest"}[kind])
-	s.E.App.SlowNext.Store(int64(5 * time.Millisecond))
+	s.E.App.SlowNext.Store(int64(slow))
 	c08PairInFlight = true
 	defer func() { c08PairInFlight = false }()
 	env.Rec(fmt.Sprintf("peer>:%d", p.Conn), "peer>", string(x), true)
@@ -269,7 +294,7 @@ func c08PipelinedPair(env *Env, s *Sut, a *Adv) {
 		p.EP.Feed(y)
 		env.Settle()
 	}
-	env.Advance(20 * time.Millisecond)
+	env.Advance(slow + 15*time.Millisecond)
 	env.AddAnchor()
 	s.E.App.SlowNext.Store(0)
 	p.Collect()
